@@ -57,6 +57,8 @@ MacrosBoundary ==
     \cup { [op |-> "nest", val |-> I("int32", -1), n |-> n] : n \in {6, 7, 13, 14, 15, 16} }
 
 NoMacros == {}
+TagsOrder == {1, 2}
+PayloadTwo == { [k |-> "bytes", fill |-> 65600], [k |-> "int32", neg |-> FALSE, mag |-> <<0,0,0,0,0,0,0,7>>] }
 
 \* quick-tier subsets
 PayloadDescsQ == { [k |-> "bytes", fill |-> n] : n \in {252, 253, 65531, 65532} }
